@@ -63,6 +63,7 @@ type Facts struct {
 	WithLock         map[string]any      `json:"with_lock"`
 	LockSites        []map[string]any    `json:"lock_sites"`
 	WriterCalls      []map[string]any    `json:"writer_calls"`
+	TruncateSites    []string            `json:"truncate_sites"`
 	Sections         map[string][]string `json:"sections"`
 	LogNameUses      []string            `json:"log_name_uses"`
 	MapRanges        []map[string]any    `json:"map_ranges"`
@@ -368,7 +369,7 @@ func extractWithLock() {
 	facts.WithLock["maps_ewouldblock"] = strings.Contains(src(fd), "syscall.EWOULDBLOCK") && strings.Contains(src(fd), "return ErrLockBusy")
 }
 
-var writers = map[string]bool{"appendEvents": true, "replaceEventsAtomically": true, "appendEventsAtomically": true, "writeEventsFile": true}
+var writers = map[string]bool{"appendEvents": true, "replaceEventsAtomically": true, "appendEventsAtomically": true, "writeEventsFile": true, "repairTornTail": true}
 var readers = map[string]bool{"loadGraph": true, "readEvents": true}
 
 // extractLockSites: every withLock call — lock type, whether its closure reads the log and writes it;
@@ -456,6 +457,10 @@ func extractLockSites() {
 				return true
 			}
 			f := src(ce.Fun)
+			// shrinking a file in place: lock-free readers may be in the middle of reading it, so every site is listed (and expected)
+			if se, ok := ce.Fun.(*ast.SelectorExpr); ok && se.Sel.Name == "Truncate" {
+				facts.TruncateSites = append(facts.TruncateSites, name+": "+src(ce))
+			}
 			switch f {
 			case "os.OpenFile", "os.Rename", "os.WriteFile", "os.Truncate", "os.Remove", "os.Create":
 				okSite := writers[name] || name == "ensureFileExists" || name == "writeAll"
